@@ -122,11 +122,41 @@ def _drop_zero(A):
     return SumExpr(A.plain, keep)
 
 
+def _merge_terms(A):
+    """linearity: sums over boxes with (provably) the same extents are merged into one sum of the added summands"""
+    from .arr import t_bin
+    groups = []
+    for t in A.terms:
+        placed = False
+        for g in groups:
+            h = g[0]
+            if len(h.vars) == len(t.vars) and all(valid(e1 == e2) for e1, e2 in zip(h.exts, t.exts)):
+                g.append(t)
+                placed = True
+                break
+        if not placed:
+            groups.append([t])
+    out = []
+    for g in groups:
+        h = g[0]
+        if len(g) == 1:
+            out.append(h)
+            continue
+        body = t_bin("mul", h.coef, h.body)
+        for t in g[1:]:
+            b = t_bin("mul", t.coef, t.body)
+            if z3.is_expr(b) and t.vars:
+                b = z3.substitute(b, *list(zip(t.vars, h.vars)))
+            body = t_bin("add", body, b)
+        out.append(Term(1, h.vars, h.exts, h.hyps, body))
+    return SumExpr(A.plain, out)
+
+
 def sum_equal(a, b):
     """('proved'|'refuted'|'unknown', detail, model) for a == b by linearity + congruence"""
     from .arr import t_bin, t_eq, _short
-    A = _drop_zero(a if isinstance(a, SumExpr) else SumExpr(a))
-    B = _drop_zero(b if isinstance(b, SumExpr) else SumExpr(b))
+    A = _merge_terms(_drop_zero(a if isinstance(a, SumExpr) else SumExpr(a)))
+    B = _merge_terms(_drop_zero(b if isinstance(b, SumExpr) else SumExpr(b)))
     st, m = sym.refute_or_prove(t_eq(A.plain, B.plain))
     if st != "proved":
         return st, f"plain parts differ: {_short(A.plain)} vs {_short(B.plain)}", m
